@@ -137,7 +137,7 @@ func genDBody(r *rnd, depth int, n *int) DBody {
 				it.OneLine = true
 				var ob DBody
 				if r.chance(2, 3) {
-					ob.Items = []DItem{{Name: genName(r), Eq: " = ", Expr: r.pick(`1`, `"s"`, `x.y`, `[1, 2]`, `f(x)`)}}
+					ob.Items = []DItem{{Name: genName(r), Eq: " = ", Expr: r.pick(`1`, `"s"`, `x.y`, `[1, 2]`, `f(x)`, "{\n    k = 1\n  }", "[\n    1,\n    2,\n  ]", "(\n    a +\n    b\n  )")}}
 				}
 				it.Body = &ob
 			}
